@@ -15,9 +15,7 @@ for d in sorted(glob.glob(os.path.join(ROOT, "seeded", "*"))):
 table = "\n".join(rows)
 p = os.path.join(ROOT, "DESIGN.md")
 s = open(p).read()
-if "SEEDTABLE" in s:
-    s = s.replace("SEEDTABLE", "<!-- SEEDTABLE BEGIN -->\n" + table + "\n<!-- SEEDTABLE END -->")
-else:
+if True:
     s = re.sub(r"<!-- SEEDTABLE BEGIN -->.*?<!-- SEEDTABLE END -->", lambda _: "<!-- SEEDTABLE BEGIN -->\n" + table + "\n<!-- SEEDTABLE END -->", s, flags=re.S)
 open(p, "w").write(s)
 print(len(rows), "rows")
